@@ -41,9 +41,11 @@ Cpx == UNION { { [kind |-> "lagrange", cx |-> TRUE, xs |-> CXs(t), ys |-> Sample
                   tol |-> Tol, src |-> s, has_src |-> TRUE, mismatch |-> FALSE] : t \in Inj(CNodes, n), s \in CSrc(2 * n) } : n \in 1..2 }
 Mis == { [kind |-> kd, cx |-> FALSE, xs |-> RX(<<0, 2, 4>>), ys |-> ys, ds |-> ds, tol |-> Tol, src |-> <<I(0)>>, has_src |-> FALSE, mismatch |-> TRUE] :
            kd \in {"lagrange", "hermite"}, ys \in {<<I(1), I(2)>>, <<I(1), I(2), I(3), I(4)>>}, ds \in {<<I(0), I(0), I(0)>>} }
-       \cup { [kind |-> "hermite", cx |-> FALSE, xs |-> RX(<<0, 2, 4>>), ys |-> <<I(1), I(2), I(3)>>, ds |-> <<I(0), I(0)>>, tol |-> Tol,
-               src |-> <<I(0)>>, has_src |-> FALSE, mismatch |-> TRUE] }
-All == Lag \cup Her \cup Arb \cup Cpx \cup Mis
+       \* every direction of mismatch between the three slices of hermite (shorter and longer values / derivatives)
+       \cup { [kind |-> "hermite", cx |-> FALSE, xs |-> RX(xs), ys |-> ys, ds |-> ds, tol |-> Tol,
+               src |-> <<I(0)>>, has_src |-> FALSE, mismatch |-> TRUE] :
+                 xs \in {<<0, 2, 4>>, <<-2, 1>>}, ys \in {<<I(1), I(2)>>, <<I(1), I(2), I(3)>>}, ds \in {<<I(0)>>, <<I(0), I(1)>>, <<I(0), I(1), I(0)>>, <<I(0), I(1), I(0), I(2)>>} }
+All == Lag \cup Her \cup Arb \cup Cpx \cup {c \in Mis : ~(Len(c.xs) = Len(c.ys) /\ (c.kind = "lagrange" \/ Len(c.xs) = Len(c.ds)))}
 ASSUME ndJsonSerialize(IOEnv.VH_CASES, SetToSeq(All))
 ASSUME PrintT(<<"GENERATED", Cardinality(All)>>)
 VARIABLE x
